@@ -322,11 +322,14 @@ class AbsCallList:
         which = w.nondet(2, "for-all-members")
         if which == 0:
             it.assign(node.target, self.generic, env)
-            from .interp import _Break, _Continue
+            from .interp import _Break, _Continue, _Return
             try:
                 it.exec_block(node.body, env)
-            except (_Break, _Continue):
-                raise Unsupported("break/continue in a for-all-members loop")
+            except _Continue:
+                pass
+            except (_Break, _Return):
+                it.path.oblige("the notification loop goes on to the next subscriber after every subscriber (no early return / break)",
+                               False, kind="site")
             if isinstance(self.generic, SubscriberCall):
                 w.event("member-body-done", self.aset, self.generic.awaited)
                 it.path.oblige("every subscriber call is awaited exactly once in the notification loop",
